@@ -38,7 +38,28 @@ def _scf_eval(inp: Dict[str, Any]) -> Dict[str, Any]:
     import seqm.seqm_functions.scf_loop as S
     from seqm.seqm_functions.pack import pack as _pack_batch
 
+    def _is_d(z):
+        return (12 < z < 18) or (20 < z < 30) or (32 < z < 36) or (38 < z < 48) or (50 < z < 54) or (70 < z < 80) or z == 57
+
+    def pack_d(X, species):
+        # s,p,d basis (PM6): 9 slots per atom; the real orbitals are selected by index from the species (independent of the package's packd):
+        # the order of the basis functions is irrelevant to every clause checked below
+        rows = []
+        for i in range(X.shape[0]):
+            idx = []
+            for a, z in enumerate(species[i].tolist()):
+                idx += [9 * a + k for k in range(0 if z == 0 else 1 if z == 1 else 9 if _is_d(z) else 4)]
+            ix = torch.tensor(idx, dtype=torch.long)
+            rows.append(X[i][ix][:, ix])
+        n = max(int(r_.shape[-1]) for r_ in rows)
+        out = torch.zeros(len(rows), n, n, dtype=X.dtype)
+        for i, r_ in enumerate(rows):
+            out[i, : r_.shape[0], : r_.shape[1]] = r_
+        return out
+
     def pack(X, nH, nHy):
+        if inp["method"] == "PM6":
+            return pack_d(X, mol_species[0])
         # per-molecule packing (independent of any batch shortcut inside the package's pack)
         rows = [_pack_batch(X[i:i + 1], nH[i:i + 1], nHy[i:i + 1])[0] for i in range(X.shape[0])]
         n = max(int(r_.shape[-1]) for r_ in rows)
@@ -74,6 +95,7 @@ def _scf_eval(inp: Dict[str, Any]) -> Dict[str, Any]:
     r = esh.run_named(names, sp, pad_to=inp.get("pad_to"), pad_coord=inp.get("pad_coord", 0.0), P0=P0)
     B.elec_energy = orig
     mol = r["_mol"]
+    mol_species = [mol.species]
     nmol = len(names)
     bad: List[str] = []
     kinds = set()
@@ -96,6 +118,9 @@ def _scf_eval(inp: Dict[str, Any]) -> Dict[str, Any]:
             if notconv[m]:
                 continue
             nb, no = int(r["norb"][m]), int(r["nocc"][m])
+            if inp["method"] == "PM6":
+                # Molecule.norb counts 4 per heavy + 1 per hydrogen and leaves the d-atoms out (it is not what the PM6 solver uses): count the basis functions
+                nb = sum(0 if z == 0 else 1 if z == 1 else 9 if _is_d(z) else 4 for z in mol.species[m].tolist())
             Pm, Fm = Pp[m][:nb, :nb], Fp[m][:nb, :nb]
             sym = np.abs(Pm - Pm.T).max()
             if sym > 1e-9:
@@ -246,6 +271,14 @@ def gen_cases(ctx: Ctx):
     # batch mates with equal orbital count but different heavy/hydrogen split, also as the ACTIVE subset left mid-SCF (H2 converges first)
     for names in (["ch4", "co"], ["h2", "ch4", "co"], ["so2", "c2h4"]):
         cases.append({"names": names, "method": str(rng.choice(methods)), "eps": 1e-9, "converger": [[1], [0, 0.2]][int(rng.integers(0, 2))], "pad_to": max(len(esh.GEOMS[v][0]) for v in names)})
+    # s,p,d basis (PM6): closed shells only (the package rejects PM6 + open shell); d-atoms next to s,p atoms and hydrogens, alone and in batches, both density solvers
+    dpool = [["h2s"], ["hcl"], ["ch3cl"], ["sih4"], ["so2"], ["hcl", "h2s"], ["ch3cl", "h2s"], ["h2o", "h2s"], ["sih4", "ch4"]]
+    for j in range(len(dpool) if ctx.thorough else 3):
+        names = dpool[(j + 3 * ctx.seed) % len(dpool)] if not ctx.thorough else dpool[j]
+        c = {"names": names, "method": "PM6", "eps": float(rng.choice([1e-7, 1e-9])), "converger": convs[int(rng.integers(0, 6))], "pad_to": max(len(esh.GEOMS[v][0]) for v in names) + int(rng.integers(0, 2))}
+        if j % 2 == 0:
+            c["sp2"] = [True, float(rng.choice([1e-5, 1e-7]))]
+        cases.append(c)
     # iteration cap must be reported
     cases.append({"names": ["so2", "ch2o"], "method": "AM1", "eps": 1e-11, "converger": [0, 0.5], "max_iter": 3, "expect_flag": True})
     cases.append({"names": ["c2h4"], "method": "PM3", "eps": 1e-11, "converger": [2], "max_iter": 2, "expect_flag": True})
